@@ -254,6 +254,9 @@ var c18Ops = []string{"GetBlob", "GetBlobRange", "GetManifest", "GetTag", "Resol
 	"PushBlob", "PushBlobChunked", "Resume", "ResumeAsk", "MountBlob", "PushManifest", "DeleteBlob", "DeleteManifest", "DeleteTag",
 	"Repositories", "Tags", "Referrers"}
 
+// digest arguments a careless caller might pass: a tag, nothing, a truncated digest, an unknown algorithm
+var c18BadDigests = []string{"latest", "", "sha256:abc", "md5:d41d8cd98f00b204e9800998ecf8427e", "sha256", "v1.0", "sha256:" + "E3B0C44298FC1C149AFBF4C8996FB92427AE41E4649B934CA495991B7852B855"}
+
 func c18Op(t []string) string {
 	n, _ := strconv.Atoi(t[1])
 	op := t[2]
@@ -275,7 +278,13 @@ func c18Op(t []string) string {
 	}
 	cl := c18Client(tr, n)
 	ctx := context.Background()
-	const dg = ociregistry.Digest("sha256:e3b0c44298fc1c149afbf4c8996fb92427ae41e4649b934ca495991b7852b855")
+	dg := ociregistry.Digest("sha256:e3b0c44298fc1c149afbf4c8996fb92427ae41e4649b934ca495991b7852b855")
+	if i := strings.IndexByte(op, '~'); i >= 0 {
+		// <op>~<k>: the caller passes an ill-formed digest argument; an error is fine, a panic is not
+		k, _ := strconv.Atoi(op[i+1:])
+		dg = ociregistry.Digest(c18BadDigests[k%len(c18BadDigests)])
+		op = op[:i]
+	}
 	read := func(r ociregistry.BlobReader, err error) error {
 		if err != nil {
 			return err
@@ -493,6 +502,31 @@ func (*c18) Gen(rng *RNG, tier string) []Case {
 				} {
 					cases = append(cases, Case{Tag: "directed-head-fallback", Lines: []string{fmt.Sprintf("cl 0 %s 2 %s %s", op, get, head)}})
 				}
+			}
+		}
+	}
+	// directed: an ill-formed digest argument (a tag passed where a digest is meant, ...) against answers with and
+	// without a digest header: an error or a result, never a panic
+	for _, op := range []string{"GetBlob", "GetBlobRange", "GetManifest", "ResolveBlob", "ResolveManifest", "MountBlob", "DeleteBlob", "DeleteManifest", "Referrers", "PushBlobChunked"} {
+		for k := range c18BadDigests {
+			for _, resp := range []string{
+				fmt.Sprintf("200 %s 2 %s %s %s %s", tok("{}"), tok("Content-Length"), tok("2"), tok("Content-Type"), tok("application/json")),
+				fmt.Sprintf("200 %s 3 %s %s %s %s %s %s", tok("{}"), tok("Content-Length"), tok("2"), tok("Content-Type"), tok("application/json"), tok("Docker-Content-Digest"), tok("sha256:44136fa355b3678a1146ad16f7e8649e94fb4fc21fe77e8310c060f61caaff8a")),
+				fmt.Sprintf("206 %s 2 %s %s %s %s", tok("{}"), tok("Content-Length"), tok("2"), tok("Content-Range"), tok("bytes 1-2/5")),
+				fmt.Sprintf("201 x 1 %s %s", tok("Location"), tok("/v2/foo/blobs/uploads/abc")),
+				fmt.Sprintf("202 x 2 %s %s %s %s", tok("Location"), tok("/v2/foo/blobs/uploads/abc"), tok("Range"), tok("0-0")),
+				"404 x 0",
+			} {
+				n := 1
+				line := fmt.Sprintf("cl 0 %s~%d", op, k)
+				if op == "PushBlobChunked" {
+					n = 6
+				}
+				line += fmt.Sprintf(" %d", n)
+				for j := 0; j < n; j++ {
+					line += " " + resp
+				}
+				cases = append(cases, Case{Tag: "directed-bad-digest-argument", Lines: []string{line}})
 			}
 		}
 	}
